@@ -31,7 +31,9 @@ add('C02', "For every grammar of the universe TLC evaluates PegSem!Parse and mod
     "else is a violation.",
     "Trusted: TLC, Python re, projections in harness/absgrammar.py. A departure common to both back-ends is C01's verdict, not C02's.",
     "TLA+ specs PegSem (oracle) and PegMachine in model and generated-parser flavours model-checked by TLC + spec->code replay into generated parsers and the model", "5 C02, 0.4")
-add('C03', "TLC evaluates PegSem!Parse (seed growing with a dynamic head, docs/left_recursion.rst) on 11 families of layered left-recursive grammars "
+add('C03', "TLC evaluates PegSem!Parse (seed growing with a dynamic head, docs/left_recursion.rst) on 16 families of layered left-recursive grammars "
+    "(direct, aliased, mutual, optional-prefixed, named, right-recursive mixes, unary prefix, a cut scoped to an inline operator choice with a second "
+    "left-recursive alternative, cycles entered after an optional / closure prefix) "
     "under all 24 assignments of rule names x every operator/operand string up to the bound; every outcome (accept/reject, end, left-nested AST) "
     "is replayed into the real model under recursion-limit and wall-clock guards (RecursionError/timeout = violation). Exhaustive within bounds. "
     "Recorded traces of the real engine (seed hits, growth rounds, memo guards) are validated by TLC against PegTrace/PegMachine.",
@@ -77,7 +79,8 @@ add('C11', "PegSem places the keyword check of @name rules after the body and be
 add('C12', "(a) spec/LinePos.tla: TLC enumerates every text over {letter, space, LF, CR} up to the bound, checks the laws of the line table and prints "
     "(line, column, line text) for every offset 0..len; each entry is replayed into TextLinesCursor and BufferCursor (lineinfo, lineat, poscol). "
     "(b) PegSem attaches (rule, start after leading whitespace, end) of every rule that returned it to each dict-like value; TLC evaluates it on "
-    "named-rule grammars (nested, aliases, token rules, lists, memo hits, left recursion) x texts with line breaks; the parseinfo of every dict AST "
+    "named-rule grammars (nested, aliases, token rules, lists, memo hits, left recursion) x texts with line breaks, and under both comment kinds x layouts "
+    "mixing blanks, block comments and end-of-line comments in every order (the start offset is the offset after the whole skip fixpoint); the parseinfo of every dict AST "
     "of the real parse must be one of those triples with line = LinePos line of the start offset.",
     "Trusted: TLC, projections. End-of-text offset findings are listed as KF-C12-1. parseinfo.endline is not part of the claim.",
     "TLA+ specs LinePos (exhaustive table) and PegSem (parse information) evaluated by TLC + replay", "5 C12")
@@ -122,7 +125,9 @@ add('C16', "spec/LeftRec.tla evaluates PegGrammar's left-call relation (Nullable
     "the universe (all 1-rule, a deterministic slice of the 2-rule and a sample of the 3-rule grammars whose bodies are 1-2 options [prefix] target; "
     "all of them in the thorough tier) and TLC checks the laws of the relation; each grammar is compiled with left recursion off (GrammarError <=> "
     "some rule on a left cycle) and on (rules on no cycle memoized and unmarked; every cycle component has a leader, read back from the model), and a "
-    "battery of short inputs is parsed under a recursion limit and wall-clock guard (RecursionError / timeout = violation).",
+    "battery of short inputs is parsed under a recursion limit and wall-clock guard (RecursionError / timeout = violation). Cycles hidden behind a call to "
+    "a rule that can match empty are bounded by a memo guard: on a family of such grammars with a cut placed in an optional / closure / lookahead / group / "
+    "called rule, PegMachine (whose guards survive the pruning done by a cut) is model-checked and must agree with the engine on every text.",
     "Trusted: TLC, projections. Grammars with a nullable rule call in a prefix (the property's proviso) are checked dynamically only.",
     "TLA+ spec LeftRec/PegGrammar (static relation, exhaustive rule graphs) evaluated by TLC + replay of verdicts, marks and input battery", "5 C16, 3.7")
 
@@ -130,23 +135,28 @@ add('C10', "spec/ApiHistory.tla models the compile cache, the shared grammar obj
     "ModelStable for the required design over all histories up to MaxCalls of the call pool (compile / tatsu.parse / to_python_sourcecode / "
     "model.parse on earlier handles, valid and failing) and refutes them for the former design (kept as configuration AsIs = TRUE to document KF-C10-1). "
     "The state graph is covered edge by edge with histories, each replayed in its own interpreter; every response is compared with the same call "
-    "executed alone in a fresh interpreter. Generated parser objects are driven through every ordered pair of per-call settings; 4-8 threads parse "
-    "on one shared model under a 1 microsecond switch interval.",
-    "Trusted: TLC; the fingerprint/abstraction of responses in harness/apireplay.py. Free-running threads are exploration (no forced interleavings yet). "
+    "executed alone in a fresh interpreter. spec/SemIdentity.tla models the process-wide action cache against object identity (addresses are reused once an "
+    "object is gone): TLC proves ActionsOfGivenObject for the design as coded (keyed by the object) and refutes the by-address design, whose behaviours "
+    "(New / Drop / Parse with address reuse, achieved by allocating until id() repeats) are replayed into the real code. Generated parser objects are "
+    "driven through every ordered pair of per-call settings; 4-8 threads parse on one shared model under a 1 microsecond switch interval, in warm rounds "
+    "and in cold-start rounds where every thread is held at the entry of Grammar.optimized() until the others are inside (forced overlap).",
+    "Trusted: TLC; the fingerprint/abstraction of responses in harness/apireplay.py. Thread rounds are exploration: one forced overlap point (Grammar.optimized), otherwise free running. "
     "Compile-time settings are excluded from the pool (C09 / KF-C09-1).",
     "TLA+ spec ApiHistory model-checked by TLC (two designs) + state-graph histories replayed against fresh-interpreter responses", "5 C10, 3.7")
 
 add('C07', "PegSem with the model-building action (Cfg.act = model): a rule annotated name::T::Base yields Obj(T, bases, attributes = named elements or "
     "the single attribute ast), builtin type names convert the value; TLC evaluates it on 11 typed grammars x all texts up to the bound; each case is "
-    "replayed through asmodel=True, ModelBuilderSemantics(), the generated model module used as semantics, and compile(typedefs=[module]) after the "
-    "synthesized compilation; compared on class name, declared bases in MRO order, attribute map (also against the plain AST of the same input), "
-    "children()/parent against the nodes stored in attributes, DepthFirst/BreadthFirst/PostOrder walker visit sets, and class identity for the module route.",
+    "replayed through asmodel=True, ModelBuilderSemantics(), the generated model module used as semantics, compile(typedefs=[module]) after the "
+    "synthesized compilation, and hand-written Node subclasses that declare their attributes as class attributes (constructors=); compared on class name, declared bases in MRO order, attribute map (also against the plain AST of the same input), "
+    "children()/parent against the nodes stored in attributes, DepthFirst/BreadthFirst/PostOrder walker visit sets, walker-method dispatch by class name "
+    "(also in a walker subclass defined after its parent class walked the tree), and class identity for the module route.",
     "Trusted: TLC, projections (harness/objreplay.py). Attribute names that collide with Node methods are compared for values only (children() omits them).",
     "TLA+ spec PegSem (MkNode / ObjModel) evaluated by TLC + replay through four model-building routes", "5 C07, 3.7")
 
 add('C13', "Grammar models obtained from the abstract-grammar universes (PegSem evaluated by TLC is the oracle of the ORIGINAL grammar for them), from a "
     "corpus of full-language grammar texts (meta expressions, $->, alerts, constants, patterns with slashes/quotes/backslashes, tokens with quotes and "
-    "backslashes, decorators incl. aliases, parameters, typed and based rules, includes, @override, directives, keywords, joins), from JSON, and with "
+    "backslashes, decorators incl. aliases, parameters, typed and based rules, includes, @override, directives, keywords, joins), from JSON, translated from "
+    "four ANTLR grammars (behaviour, fixpoint and railroads only: translated models hold placeholder nodes), and with "
     "token/pattern texts enumerated over {a, ', \", \\, /} up to length 3; each model is pretty-printed and recompiled: the text must compile, the "
     "recompiled model must equal the original (from_model projection), behave identically on the input battery and agree with the specification "
     "outcome of the original grammar; pretty-print fixpoint and railroads() completion are checked directly.",
@@ -180,7 +190,9 @@ add('C08', "(1) PegSem's meta expressions (@int @uint @float @bool @name) evalua
     "accept/reject and value as specified. (2) full-language and seeded random grammars x texts with empty / control / CR-LF mixes / Unicode separators / "
     "non-ASCII / long inputs: every outcome must be a result or a FailedParse whose position lies in the text, whose line, column and source line are mutually "
     "consistent and equal to the LinePos line, identical for both input implementations, and whose message renders. (3) syntax corpus + character-level "
-    "mutants as compile input: a model or a TatSu parse/grammar error; any other exception type, RecursionError or time-out is a violation.",
+    "mutants as compile input: a model or a TatSu parse/grammar error; any other exception type, RecursionError or time-out is a violation. (4) a corpus "
+    "of lexical directives and literals that stress the regex / escape / constant machinery (skip patterns that match the empty string, invalid regular "
+    "expressions and escapes, constants whose evaluation raises), compiled and parsed under a wall-clock guard.",
     "Trusted: TLC, projections. The quantifier over all Unicode strings is sampled by class representatives and seeded random strings (exploration); "
     "texts whose treatment the documents leave open (digit run followed by a letter) are checked for the outcome domain only.",
     "TLA+ spec PegSem (meta expressions, outcome domain) evaluated by TLC + replay on both input implementations + fault-oriented text/grammar mutation",
